@@ -9,6 +9,7 @@ INVARIANT EvalOnce
 INVARIANT PayTruthful
 INVARIANT ProcessedAll
 INVARIANT ContentKept
+INVARIANT ProcessRefines
 INVARIANT EmitState
 PROPERTY WriteOnce
 CHECK_DEADLOCK FALSE
